@@ -37,10 +37,7 @@ pub fn live_server(clients_can_modify_address_space: bool) -> Live {
             }
             s.write().abort();
         }
-        let port = {
-            let probe = std::net::TcpListener::bind("127.0.0.1:0").unwrap_or_else(|e| harness_error(&format!("no loopback port: {}", e)));
-            probe.local_addr().map(|a| a.port()).unwrap_or_else(|e| harness_error(&format!("no loopback port: {}", e)))
-        };
+        let port = crate::fixtures::free_port();
         let was = srv::lock_recording();
         opcua::verif::locks::set_enabled(false);
         let server = Arc::new(RwLock::new(srv::server(&SrvOpts { clients_can_modify_address_space, port, ..SrvOpts::default() })));
